@@ -29,6 +29,15 @@ def run(rep, tier_, rng):
             elif k == 2 and len(ctxs) < 6:
                 src = rng.choice([j for j, c in enumerate(ctxs) if c is not iv])
                 ctxs.append(ctxs[src].clone()); ops += [2, src, 0]
+            elif k == 3 and rng.random() < 0.35:
+                # fp borrows mp for some computations (Riemann-Siegel coefficients, derivatives of zeta, ...): mp must get its state back
+                try:
+                    rng.choice([lambda: fp.siegelz(30000.0 + rng.randint(0, 9000)), lambda: fp.zeta(0.5 + 31000.5j), lambda: fp.zeta(2.5, derivative=1),
+                                lambda: fp.gamma(3.25), lambda: fp.quad(lambda t: t * t, [0, 1]), lambda: fp.besselj(1, 2.5), lambda: fp.erf(0.5),
+                                lambda: fp.zeta(0.5 + 40.5j, method='riemann-siegel')])()
+                except Exception:
+                    pass
+                ops += [3, i, 0]
             else:
                 c = ctxs[i]
                 # evaluations (including ones that temporarily raise the precision, fail, or use caches)
@@ -80,6 +89,25 @@ def run(rep, tier_, rng):
             rep.violation("clone and mp give different values for %s at the same precision" % name, {"fn": name, "x": x, "prec": prec, "mp": list(a._mpf_), "clone": list(b._mpf_)})
         if c.prec != prec or mp.prec != prec:
             rep.violation("precision of mp/clone changed by computing in another context", {"fn": name, "prec": prec})
+    import sweep
+    # borrowing: fp and clones use mp for some internal tables (Riemann-Siegel coefficients); with an empty table (as in a fresh
+    # process) the borrowed context must get its precision back
+    borrowed = 0
+    for call in (lambda: fp.siegelz(30000.5), lambda: fp.siegelz(-41000.25), lambda: fp.zeta(0.5 + 31000.5j), lambda: fp.zeta(2.5, derivative=1),
+                 lambda: fp.zeta(0.5 + 40.5j, method='riemann-siegel'), lambda: fp.siegeltheta(1000.5), lambda: fp.zetazero(3)):
+        for ctxx in (fp, mp):
+            if hasattr(ctxx, "_rs_cache"): ctxx._rs_cache[:] = [0, 10, {}, {}]
+        pm = rng.choice([30, 64, 100, 200]); pi_ = rng.choice([40, 70, 150]); mp.prec = pm; iv.prec = pi_
+        cl = mp.clone(); cl.prec = 88
+        try:
+            sweep.call_with_timeout(call, 30)
+        except Exception:
+            pass
+        borrowed += 1
+        if (mp.prec, iv.prec, cl.prec) != (pm, pi_, 88):
+            rep.violation("an fp computation that borrows mp changed another context's precision (mp %d->%d, iv %d->%d, clone 88->%d)" % (pm, mp.prec, pi_, iv.prec, cl.prec),
+                          {"fn": "fp borrowing", "call_index": borrowed, "mp_prec": pm})
+    mp.prec = 53; iv.prec = 53
     # ownership sweep: after another context has evaluated the same call at a higher precision (filling every module-level
     # cache), a clone and fp must still return numbers of their own types at their own precision, equal to mp's at that precision
     import sweep
@@ -110,6 +138,21 @@ def run(rep, tier_, rng):
                 continue
             own += 1
             rp = {"fn": name, "args": raw, "hi_prec": hi.prec}
+            # the same call on the clone with arguments that belong to the other context (exactly representable values):
+            # the function must compute in its own context, so the result is the same number of the clone's type
+            try:
+                f_c = extra3[name](c) if name in extra3 else sweep.resolve(c, name)
+                rx = sweep.call_with_timeout(lambda: f_c(*[hi.mpf(v) for v in raw]), 20)
+            except (sweep.CallTimeout,) + sweep.EXPECTED_ERRORS:
+                rx = None
+            if rx is not None and name not in ("fadd", "fsub", "fmul", "fdiv", "ldexp", "degrees", "radians"):
+                if (hasattr(rx, "_mpf_") and type(rx) is not c.mpf) or (hasattr(rx, "_mpc_") and type(rx) is not c.mpc):
+                    rep.violation("%s of a clone given another context's numbers returned a number of that other context" % name, dict(rp, foreign_args=True))
+                elif hasattr(rx, "_mpf_") and hasattr(rc, "_mpf_") and rx._mpf_ != rc._mpf_:
+                    rep.violation("%s of a clone depends on which context its (exactly representable) arguments belong to" % name,
+                                  dict(rp, foreign_args=True, own=list(rc._mpf_), foreign=list(rx._mpf_)))
+                elif hasattr(rx, "_mpc_") and hasattr(rc, "_mpc_") and rx._mpc_ != rc._mpc_:
+                    rep.violation("%s of a clone depends on which context its (exactly representable) arguments belong to" % name, dict(rp, foreign_args=True))
             if isinstance(rc, (mp.mpf, mp.mpc)) or (hasattr(rc, "_mpf_") and type(rc) is not c.mpf) or (hasattr(rc, "_mpc_") and type(rc) is not c.mpc):
                 rep.violation("%s called on a clone returned a number owned by another context (%s)" % (name, type(rc).__module__ + "." + type(rc).__name__), rp)
             elif hasattr(rc, "_mpf_") and hasattr(rm, "_mpf_") and rc._mpf_ != rm._mpf_:
@@ -117,9 +160,15 @@ def run(rep, tier_, rng):
                               dict(rp, clone=list(rc._mpf_), mp=list(rm._mpf_)))
             elif hasattr(rc, "_mpc_") and hasattr(rm, "_mpc_") and rc._mpc_ != rm._mpc_:
                 rep.violation("%s on a clone differs from mp at the same precision after a higher-precision call in a third context" % name, rp)
+            mp.prec = 77
             try:
                 rf = sweep.call_with_timeout(lambda: fn(fp), 20)
             except (sweep.CallTimeout, Exception):
+                rf = None
+            if (mp.prec, mp.dps) != (77, 22):
+                rep.violation("fp.%s changed the precision of mp (77 -> %d)" % (name, mp.prec), rp)
+            mp.prec = 53
+            if rf is None:
                 continue
             if hasattr(rf, "_mpf_") or hasattr(rf, "_mpc_") or hasattr(rf, "_mpi_"):
                 rep.violation("fp.%s returned a multiprecision number (%s) after another context filled a cache" % (name, type(rf).__name__), rp)
